@@ -317,8 +317,10 @@ def max_steps(ops):
     return n
 
 
-def run_history(spec, ops, step_ticks, cb_ticks, clock0=0):
-    """run the operations on a fresh real optimiser with the fake clock; returns (per-op observations, min0)"""
+def run_history(spec, ops, step_ticks, cb_ticks, clock0=0, ctl=None):
+    """run the operations on a fresh real optimiser with the fake clock; returns (per-op observations, min0).
+    `ctl[j]` (optional) = [itnum|None, maxiter|None]: what callback invocation number j assigns to the
+    optimiser's own attributes before it returns."""
     clock = FakeClock(clock0)
     obs = []
     with installed(clock):
@@ -344,6 +346,12 @@ def run_history(spec, ops, step_ticks, cb_ticks, clock0=0):
                 "min": flat(opt.minimizer()),
             }
             clock.advance(cb_ticks[state["j"]])
+            a = ctl[state["j"]] if (ctl is not None and state["j"] < len(ctl)) else None
+            if a is not None:
+                if a[0] is not None:
+                    opt.itnum = int(a[0])
+                if a[1] is not None:
+                    opt.maxiter = int(a[1])
             state["j"] += 1
             seen["enter"], seen["leave"] = enter, clock.now
             cblog.append(seen)
@@ -368,6 +376,7 @@ def run_history(spec, ops, step_ticks, cb_ticks, clock0=0):
                 out["rows"] = [[_num(v) for v in tuple(r)] for r in hist[nrows0:]]
                 out["cbs"] = cblog[ncb0:]
                 out["itnum"] = int(s.itnum)
+                out["maxiter"] = int(s.maxiter)
                 out["clock"] = clock.now
                 out["steps"] = state["k"]
                 out["elapsed"] = _num(s.timer.elapsed())
@@ -418,6 +427,30 @@ def to_arg(a, as_tuple=False):
     return a
 
 
+_ROW = None
+
+
+def parse_timer_str(txt):
+    """rows of the table `Timer.__str__` prints: [label, accumulated, current | None ('Stopped')] with the
+    numbers as printed (`%.2e`); anything unexpected in the layout -> the raw text (which then differs)"""
+    import re
+
+    lines = txt.split("\n")
+    if len(lines) < 3 or lines[-1] != "" or not lines[0].startswith("Label") or set(lines[1]) != {"-"}:
+        return {"unparsed": txt}
+    rows = []
+    for ln in lines[2:-1]:
+        m = re.fullmatch(r"(\S+)\s+(\d\.\d\de[+-]\d\d) s\s+(Stopped|(\d\.\d\de[+-]\d\d) s)", ln)
+        if not m:
+            return {"unparsed": txt}
+        rows.append([m.group(1), m.group(2), m.group(4)])
+    return rows
+
+
+def fmt_ticks(v):
+    return f"{float(v):.2e}"
+
+
 def run_timer(cfg, calls):
     """cfg: {"init": None|str|[...], "dflt": str, "all": str}; calls: [{"t", "op", "arg", "total"?, "tuple"?}]
     returns per call: 0 / -1 (KeyError) for start/stop/reset, value / -1 for elapsed; and the key lists"""
@@ -426,7 +459,7 @@ def run_timer(cfg, calls):
     clock = FakeClock(0)
     res, keys = [], []
     with installed(clock):
-        T = su.Timer(labels=to_arg(cfg["init"]), default_label=cfg["dflt"], all_label=cfg["all"])
+        T = su.Timer(labels=to_arg(cfg["init"], cfg.get("init_tuple", False)), default_label=cfg["dflt"], all_label=cfg["all"])
         for c in calls:
             clock.now = int(c["t"])
             arg = to_arg(c.get("arg"), c.get("tuple", False))
@@ -441,8 +474,24 @@ def run_timer(cfg, calls):
                     T.reset(arg) if not c.get("noarg") else T.reset()
                     r = 0
                 elif c["op"] == "elapsed":
-                    v = T.elapsed(arg, total=c["total"]) if not c.get("noarg") else T.elapsed(total=c["total"])
+                    if c.get("via_ctx"):
+                        v = su.ContextTimer(T, arg).elapsed(total=c["total"])
+                    else:
+                        v = T.elapsed(arg, total=c["total"]) if not c.get("noarg") else T.elapsed(total=c["total"])
                     r = int(v) if float(v) == int(v) else float(v)
+                elif c["op"] == "ctx_enter":
+                    cm = su.ContextTimer(T, arg, c["action"])
+                    got = cm.__enter__()
+                    r = 0 if got is cm else -3
+                elif c["op"] == "ctx_exit":
+                    ex = c.get("exc", False)
+                    got = su.ContextTimer(T, arg, c["action"]).__exit__(ValueError if ex else None, ValueError("x") if ex else None, None)
+                    r = 0 if got is (not ex) else -3  # True (no exception in the block) / False (propagate it)
+                elif c["op"] == "str":
+                    try:
+                        r = parse_timer_str(str(T))
+                    except TypeError:
+                        r = "TypeError"
                 else:
                     raise ValueError(c)
             except KeyError:
